@@ -221,7 +221,7 @@ def shard_worker(args):
                                      'impl': lo[d] if d < len(lo) else '<missing>', 'model': mo[d] if d < len(mo) else '<missing>'})
             key = prop.nontrivial_key(sc, li, lo)
             if key is not None:
-                keys.add(key)
+                keys.add(tuple_key(key))
             prop.tally(stats['dist'], sc, li, lo)
             if len(samples) < 2 and shard == 0:
                 samples.append({'ops': li[:12], 'impl_out': lo[:12]})
@@ -480,10 +480,11 @@ def run_check(pid, tier, seed):
             continue
         reported.add(f['clause'])
         sc = f['scenario']
-        try:
-            sc = shrink(prop, sc, 'judge', f['clause'])
-        except Exception:
-            pass
+        if not os.environ.get('VERIF_NOSHRINK'):
+            try:
+                sc = shrink(prop, sc, 'judge', f['clause'])
+            except Exception:
+                pass
         kind, info = eval_one(prop, sc, judge_only=True)
         rp = write_replay(pid, {'property': pid, 'kind': 'judge', 'clause': f['clause'], 'detail': info.get('detail', f['detail']),
                                 'scenario': sc, 'lines_in': info.get('lines_in'), 'impl_trace': info.get('impl_out'), 'seed': seed})
@@ -552,7 +553,7 @@ def run_check(pid, tier, seed):
 
 
 def tuple_key(k):
-    if isinstance(k, list):
+    if isinstance(k, (list, tuple)):
         return tuple(tuple_key(x) for x in k)
     return k
 
